@@ -157,8 +157,20 @@ func (db *DB) Merge() error {
 	if err := hintFile.Close(); err != nil {
 		return err
 	}
+	lastMergedFileId := mergeDB.activeFile.ID
 	if err := closeMergeFiles(); err != nil {
 		return err
+	}
+	// 为每个参与 merge 但无对应重写文件的 id 创建空文件
+	// 使加载过程对每个 id 都是一次原子的重命名替换, 中断后可安全重试
+	for fileID := lastMergedFileId + 1; fileID < nonMergeFileId; fileID++ {
+		emptyFile, err := datafile.OpenFile(mergePath, fileID, datafile.DataFileSuffix, db.options.FileIOType)
+		if err != nil {
+			return err
+		}
+		if err := emptyFile.Close(); err != nil {
+			return err
+		}
 	}
 
 	vhook.Point("merge.beforeMarker")
@@ -231,33 +243,19 @@ func (db *DB) loadMergeFiles() (uint32, error) {
 		return 0, nil
 	}
 
-	defer func() {
-		vhook.FS("removeall", mergePath, "")
-		// 加载完成后删除 merge 目录
-		_ = os.RemoveAll(mergePath)
-	}()
-
 	// 处理经过重写的数据文件, 处理中途失败需返回错误
+	// merge 保证每个小于 mergeID 的 id 都存在重写文件, 重命名会原子地替换原数据文件
+	// 重写文件不存在说明此前被中断的加载过程已完成该 id 的替换, 此时不能再删除数据目录中的文件
 	for fileID := uint32(0); fileID < mergeID; fileID++ {
-		// 删除原数据文件
-		destName := datafile.GetFileName(db.options.DirPath, fileID, datafile.DataFileSuffix)
-		var exist bool
-		if _, err := os.Stat(destName); err == nil {
-			vhook.FS("remove", destName, "")
-			if err = os.Remove(destName); err != nil {
-				return 0, err
-			}
-			exist = true
-		}
-		// 将重写的数据文件移动到数据目录中
 		srcFile := datafile.GetFileName(mergePath, fileID, datafile.DataFileSuffix)
 		if _, err := os.Stat(srcFile); err != nil {
-			// 如果原数据文件不存在, 则允许重写文件不存在
-			if !exist && os.IsNotExist(err) {
+			if os.IsNotExist(err) {
 				continue
 			}
 			return 0, err
 		}
+		// 将重写的数据文件移动到数据目录中
+		destName := datafile.GetFileName(db.options.DirPath, fileID, datafile.DataFileSuffix)
 		vhook.FS("rename", srcFile, destName)
 		if err := os.Rename(srcFile, destName); err != nil {
 			return 0, err
@@ -265,15 +263,21 @@ func (db *DB) loadMergeFiles() (uint32, error) {
 	}
 
 	// 移动对应的 hint 文件, 移动失败应当返回错误
+	// hint 文件最后移动, 不存在说明此前被中断的加载过程已完成移动
 	srcHintFile := datafile.GetFileName(mergePath, 0, datafile.HintFileSuffix)
 	destHintFile := datafile.GetFileName(db.options.DirPath, 0, datafile.HintFileSuffix)
-	if _, err := os.Stat(srcHintFile); err != nil {
+	if _, err := os.Stat(srcHintFile); err == nil {
+		vhook.FS("rename", srcHintFile, destHintFile)
+		if err := os.Rename(srcHintFile, destHintFile); err != nil {
+			return 0, err
+		}
+	} else if !os.IsNotExist(err) {
 		return 0, err
 	}
-	vhook.FS("rename", srcHintFile, destHintFile)
-	if err := os.Rename(srcHintFile, destHintFile); err != nil {
-		return 0, err
-	}
+
+	// 全部加载完成后才允许删除 merge 目录
+	vhook.FS("removeall", mergePath, "")
+	_ = os.RemoveAll(mergePath)
 
 	return mergeID, nil
 }
